@@ -1116,6 +1116,8 @@ class ArgumentParser(ParserDeprecations, ActionsContainer, ArgumentLinking, argp
             KeyError: If a key in cfg is not defined in the parser.
         """
         prefix = get_private_kwargs(kwargs, _prefix="")
+        if not isinstance(cfg, Namespace):
+            raise TypeError(f"Expected a nested configuration{' for ' + prefix[:-1] if prefix else ''}, but got the value: {cfg!r}")
         cfg = ccfg = cfg.clone()
         if isinstance(branch, str):
             branch_cfg = cfg
